@@ -60,7 +60,7 @@ def binop (op : String) (rs d s : Nat) : Nat :=
   if op = "add" then (s + d) % m
   else if op = "mult" then (s * d) % m
   else if op = "div" then d / s            -- s = 0 is x in hardware; excluded by the hypotheses
-  else if op = "mod" then d % s
+  else if op = "mod" then (if s = 0 then 0 else d % s)   -- s = 0: x in hardware, 0 under BMV.Vlog; excluded by the hypotheses
   else if op = "cpy" then s
   else if op = "and" then s &&& d
   else if op = "or" then s ||| d
